@@ -68,6 +68,24 @@ def run(res, args):
         streams.append((gen.hostile_stream(rng), "hostile"))
     for n in gen.BOUNDARY_LENS:
         streams.append((gen.make_frame(gen.payload_with_type(rng, gen.rand_type(rng), n)), "boundary"))
+    # near-frames whose CRC matches under a WRONG reading of the leader: reserved bits set, and the checksum computed
+    # for the payload length a 16-bit reading (or a reading that ignores the reserved bits) would give
+    for hi, lo in [(0x04, 0x00), (0x04, 0x05), (0x08, 0x01), (0x05, 0x13), (0xfc, 0x03), (0x80, 0x02), (0x07, 0xff)] * (1 if mult == 1 else 4):
+        for L in sorted(set([((hi << 8) | lo), (((hi & 3) << 8) | lo)])):
+            if 0 < L <= 2100:
+                body = gen.payload_with_type(rng, gen.rand_type(rng), L)
+                head = bytes([0xD3, hi, lo]) + body
+                near = head + gen.crc24q(head).to_bytes(3, "big")
+                streams.append((near + gen.rand_frame(rng, small=True), "wrong-leader-reading"))
+                streams.append((gen.rand_junk(rng) + near, "wrong-leader-reading"))
+    # a frame repeated verbatim (as stations repeat 1005/1006/1230) whose second copy is damaged in the payload only,
+    # the CRC bytes being those of the good copy
+    for _ in range(40 * mult):
+        f = gen.make_frame(gen.payload_with_type(rng, rng.choice([1005, 1006, 1230, 1033, gen.rand_type(rng)]), rng.choice([19, 21, 8, 40, 100])))
+        g = bytearray(f)
+        i = rng.randint(5, len(f) - 4)
+        g[i] ^= 1 << rng.randint(0, 7)
+        streams.append((f + (gen.rand_junk(rng) if rng.random() < 0.3 else b"") + bytes(g) + f, "damaged-repeat"))
     cases = ["stream %d debug %s" % (framing.T0, gen.hx(s)) for s, _ in streams]
     impl, model = framing.run_both(res, "stream", cases)
     typed_raws = set()
